@@ -54,7 +54,7 @@ CHECKS = [
              "known findings C11-edge / C11-edge-drop apply to the formula",
      "not_covered": ["round trip of models from arbitrary fits (bounded sample only)"],
      },
-    {"id": "C20", "level": "proof", "modules": ["contracts.C20_windows"], "bounded": [],
+    {"id": "C20", "level": "proof", "modules": ["contracts.C20_windows"], "bounded": ["bounded.C20_windows"],
      "technique": "deductive verification over a sorted-index model of pandas label slicing (pyvc symbolic execution, z3 with quantified sortedness)",
      "text": "get_baseline_data / get_reporting_data are executed symbolically for every row count, every sorted integer-time index, every "
              "end/start instant, max_days and all option combinations: returned rows lie inside the requested limits (tight at both ends), the "
